@@ -31,6 +31,7 @@ single nodes and fragments) and agreement with the executable Spec (`*_commutes`
 `Tree.normalize` (`normalize_refines_tree`) with its three corollaries.  `compareDocumentPosition` = the preorder
 comparison for two nodes of one tree, against the parent chains and against the Spec's `comparePos`.
 `compareDocumentPosition_agrees_all`: equal to the Spec's `comparePos` for every pair of nodes with proper parent chains.
+`unfolding_complete` / `views_fuel_irrelevant`: the driver's recursion fuel unfolds the whole tree of a reachable heap.
 Kept as `…_statement` at the end: `normalize`/`cloneNode` as steps of a history keep the forest invariants (proved part:
 `normalize_clone_keep_forest_partial`), `isEqualNode` of a deep clone, normalisation of fragments under other attribute keys.
 -/
@@ -1012,6 +1013,28 @@ def TreeBelow (h : Heap) (s : Id) : Prop := (DomTree.abs (fuelOf h) (toLL h) s).
 theorem treeBelow_of_forest (h : Heap) (s : Id) (hinv : Inv h) (hac : Acyclic h) (hw : WF h)
     (hk : h.kind s ≠ .frag) (hs : s < h.next) : TreeBelow h s :=
   Proofs.DomTreeBelow.tree_below hinv hac hw (fuelOf h) s hk hs
+
+/-- **the recursion fuel of the driver unfolds the whole tree**: in a heap with correct parent links, no cycle and
+    well-formed lists, unfolding a non-fragment node to any depth `g ≥ h.next` (the driver uses `h.next + 2`) already
+    gives the complete tree: deeper unfoldings add nothing (pigeonhole on the distinct allocated nodes of a branch) -/
+theorem unfolding_complete (h : Heap) (s : Id) (hinv : Inv h) (hac : Acyclic h) (hw : WF h) (hk : h.kind s ≠ .frag)
+    (hs : s < h.next) (g k : Nat) (hg : h.next ≤ g) :
+    DomTree.abs (g + k) (toLL h) s = DomTree.abs g (toLL h) s :=
+  Proofs.DomTreeBelow.unfolding_stable hinv hac hw s hk hs g hg k
+
+/-- hence `textContent` and `getElementsByTagName` computed with the driver's fuel do not depend on the fuel -/
+theorem views_fuel_irrelevant (h : Heap) (s : Id) (ha : NoAlias h) (hb : NoAttr2 h) (hinv : Inv h) (hac : Acyclic h)
+    (hw : WF h) (hk : h.kind s ≠ .frag) (hs : s < h.next) (k tag : Nat) :
+    textContent (fuelOf h + k) h s = textContent (fuelOf h) h s ∧
+    getElementsByTagName (fuelOf h + k) h s tag = getElementsByTagName (fuelOf h) h s tag := by
+  have hst := unfolding_complete h s hinv hac hw hk hs (fuelOf h) k (by simp [fuelOf])
+  constructor
+  · have e1 := textContent_is_concat h s (h.next + 1 + k) ha
+    have e2 := textContent_is_concat h s (h.next + 1) ha
+    have h1 : fuelOf h + k = h.next + 1 + k + 1 := by simp only [fuelOf]; omega
+    have h2 : fuelOf h = h.next + 1 + 1 := rfl
+    rw [h1, e1, ← h1, hst, h2, e2]
+  · rw [getElementsByTagName_is_preorder_filter h s tag _ ha hb, getElementsByTagName_is_preorder_filter h s tag _ ha hb, hst]
 
 /-- histories whose every step meets its precondition, never puts an ancestor below itself, and uses allocated nodes -/
 def ValidAll : Heap → List Op → Prop
